@@ -22,5 +22,12 @@ func init() {
 		}
 		return nil
 	}
-	facts["C06"] = func(repo string) (string, error) { return c15.FactsNS(repo, "C06") }
+	facts["C06"] = func(repo string) (string, error) {
+		base, err := c15.FactsNS(repo, "C06")
+		if err != nil {
+			return "", err
+		}
+		// round E: probe facts (behaviour of the linked code, no source text)
+		return c06.Facts(base), nil
+	}
 }
